@@ -18,6 +18,7 @@ type Env struct {
 	header    *ssa.BasicBlock // for invariants: resolve locals visible at this loop header
 	calleePkg string          // package whose scope resolves identifiers (defaults to fn's package)
 	inOld     bool
+	head      *State // state at the head of the enclosing loop (for hints)
 }
 
 func (c *FnCtx) envFor(st, old *State) *Env {
@@ -228,17 +229,28 @@ func (c *FnCtx) evalSpec(e Expr, env *Env) (TV, error) {
 			binders = append(binders, fmt.Sprintf("(%s %s)", name, s))
 			bv := Term{name, s}
 			n.vars[qv.Name] = TV{bv, t}
-			ranges = append(ranges, u.rangeFacts(bv, t, 2)...)
+			// Bound variables of type int range over the mathematical integers: index quantifiers
+			// always carry their own 0 <= i < len guard, and the 64-bit range guard derails trigger
+			// selection in all three solvers. Other integer types keep their range.
+			if b, isBasic := types.Unalias(t).(*types.Basic); !(isBasic && (b.Kind() == types.Int || b.Kind() == types.Int64)) {
+				ranges = append(ranges, u.rangeFacts(bv, t, 2)...)
+			}
 		}
 		body, err := c.evalSpec(x.Body, &n)
 		if err != nil {
 			return TV{}, err
 		}
 		var t Term
+		var names []string
+		for _, qv := range x.Vars {
+			names = append(names, n.vars[qv.Name].t.S)
+		}
 		if x.Forall {
-			t = Term{fmt.Sprintf("(forall (%s) %s)", strings.Join(binders, " "), implies(and(ranges...), body.t).S), SBool}
+			inner := implies(and(ranges...), body.t).S
+			t = Term{fmt.Sprintf("(forall (%s) %s)", strings.Join(binders, " "), withPatterns(inner, names)), SBool}
 		} else {
-			t = Term{fmt.Sprintf("(exists (%s) %s)", strings.Join(binders, " "), and(append(ranges, body.t)...).S), SBool}
+			inner := and(append(ranges, body.t)...).S
+			t = Term{fmt.Sprintf("(exists (%s) %s)", strings.Join(binders, " "), withPatterns(inner, names)), SBool}
 		}
 		return TV{t, types.Typ[types.Bool]}, nil
 	case *ESel:
@@ -673,6 +685,14 @@ func (c *FnCtx) evalCall(x *ECall, env *Env) (TV, error) {
 			k, s := c.g.heapKeyFor(p.Elem())
 			h := c.heap(env.st, k, s)
 			return TV{sel(h, args[0].t), p.Elem()}, nil
+		case "head":
+			// head(e): e evaluated in the state at the head of the enclosing loop (hints only)
+			if env.head == nil || len(x.Args) != 1 {
+				return TV{}, fmt.Errorf("head() is only available in loop hints")
+			}
+			n := *env
+			n.st = env.head
+			return c.evalSpec(x.Args[0], &n)
 		case "isFresh", "sameArray":
 			args, err := evalArgs()
 			if err != nil {
